@@ -86,14 +86,11 @@ macro "legal_list" : tactic => `(tactic| (
     | (apply pollReady_all; intro x; exact legal_rd _ (by decide))
     | trivial))
 
-/-- Every access of every operation is legal — with one exception, see below.
-
-OPEN (false on the current tree, negation witness `legacy_read_generation_not_in_spec`):
-  `theorem all_legal (v op rs) : ∀ a ∈ (run v op rs).trace, Legal v a`
-`read_config_generation` reads offset 0x0fc also on a legacy device, whose register table
-(§4.2.4) has no ConfigGeneration register. -/
-theorem all_legal_partial (v : Version) (op : Op) (rs : List Nat)
-    (hx : ¬ (v = .legacy ∧ op = .readGeneration)) :
+/-- **Every access of every operation is legal**: 32 bits wide, at an offset of the
+specification's table for the device's interface version, in a permitted direction — for all
+parameters and all device answers, on legacy and modern devices. (Before /repo commit 058e2dd
+`read_config_generation` read 0x0fc on legacy devices too; see the `example` at the end.) -/
+theorem all_legal (v : Version) (op : Op) (rs : List Nat) :
     ∀ a ∈ (run v op rs).trace, Legal v a := by
   cases op <;> cases v <;> simp only [run]
   case readFeatures.legacy | readFeatures.modern => split <;> legal_list
@@ -111,7 +108,7 @@ theorem all_legal_partial (v : Version) (op : Op) (rs : List Nat)
   case queueUsed.legacy | queueUsed.modern => apply read1_all <;> legal_list
   case ackInterrupt.legacy | ackInterrupt.modern =>
     apply read1_all <;> (try (intro x; split)) <;> legal_list
-  case readGeneration.legacy => exact absurd ⟨rfl, rfl⟩ hx
+  case readGeneration.legacy => legal_list
   case readGeneration.modern => apply read1_all <;> legal_list
   case vendorId.legacy | vendorId.modern => apply read1_all <;> legal_list
   case drop.legacy | drop.modern => legal_list
@@ -145,7 +142,7 @@ theorem all_field_accesses (v : Version) (op : Op) (rs : List Nat) :
   case ackInterrupt.legacy | ackInterrupt.modern =>
     apply read1_all <;> (try (intro x; split)) <;> field_list
   case maxQueueSize.legacy | maxQueueSize.modern | getStatus.legacy | getStatus.modern
-      | queueUsed.legacy | queueUsed.modern | readGeneration.legacy | readGeneration.modern
+      | queueUsed.legacy | queueUsed.modern | readGeneration.modern
       | vendorId.legacy | vendorId.modern => apply read1_all <;> field_list
   all_goals field_list
 
@@ -288,7 +285,7 @@ theorem no_perqueue_access_without_queue (v : Version) (op : Op) (rs : List Nat)
   case readFeatures.legacy | readFeatures.modern => split <;> noq_list
   case ackInterrupt.legacy | ackInterrupt.modern =>
     apply read1_all <;> (try (intro x; split)) <;> noq_list
-  case getStatus.legacy | getStatus.modern | readGeneration.legacy | readGeneration.modern
+  case getStatus.legacy | getStatus.modern | readGeneration.modern
       | vendorId.legacy | vendorId.modern => apply read1_all <;> noq_list
   all_goals noq_list
 
@@ -618,15 +615,19 @@ theorem probe_too_small (size magic version devid : Nat) (h : size < 0x100) :
   rw [show CONFIG_SPACE_OFFSET = 256 from rfl, if_pos h]
   exact ⟨rfl, rfl⟩
 
-/-! ## the one place where the current code leaves the specification's table -/
+/-! ## `read_config_generation` -/
 
-/-- Negation witness for the OPEN statement `all_legal`: on a legacy device
-`read_config_generation` performs a read at 0x0fc, which is not a register of the legacy table. -/
-theorem legacy_read_generation_not_in_spec :
-    ∃ a ∈ (run .legacy .readGeneration [0]).trace, ¬ Legal .legacy a := by
-  refine ⟨rd .configGeneration 0, by simp [run, read1], ?_⟩
-  intro h
-  exact absurd h.legal (by decide)
+/-- on a legacy device `read_config_generation` touches nothing and returns the constant 0 (the
+legacy register layout, §4.2.4, has no ConfigGeneration); on a modern device it is one read of 0x0fc -/
+theorem read_generation_trace (x : Nat) (rs : List Nat) :
+    run .legacy .readGeneration rs = ⟨[], .val 0⟩
+      ∧ run .modern .readGeneration (x :: rs) = ⟨[rd .configGeneration x], .val x⟩ := ⟨rfl, rfl⟩
+
+/-- Negation witness for the behaviour before /repo commit 058e2dd (the transport read 0x0fc on
+legacy devices as well): that access is *not* legal on the legacy interface, so `all_legal` would
+fail for a model of the old code — the oracle of the harness flags exactly this trace. -/
+example : ¬ Legal .legacy (rd .configGeneration 0) := fun h => absurd h.legal (by decide)
+example : Legal .modern (rd .configGeneration 0) := legal_rd _ (by decide)
 
 /-! ## non-vacuity -/
 
